@@ -65,34 +65,43 @@ def run(ctx):
             kw["max_diameter"] = depth
         if explore is not None:
             kw["max_layer_size_to_explore"] = explore
-        # effective depth of the internal ball (true layer sizes of the searched side)
         sizes = [len(l) for l in layers]
-        deff = 0
-        for i in range(1, (depth or 50) + 1):
-            if i >= len(sizes):
-                break
-            deff = i
-            if sizes[i] >= (explore or 10**6):
-                break
-        verts = sorted(dist_to_c)
-        qs = P.query_states(rng, gd, layers, dist_to_c, deff, ctx.budget(4, 7))
+
+        def eff_depth(kwj):
+            deff = 0
+            for i in range(1, (kwj.get("max_diameter") or 50) + 1):
+                if i >= len(sizes):
+                    break
+                deff = i
+                if sizes[i] >= (kwj.get("max_layer_size_to_explore") or 10**6):
+                    break
+            return deff
+        qs = P.query_states(rng, gd, layers, dist_to_c, eff_depth(kw), ctx.budget(4, 7))
         qlits = []
         nontrivial = False
+        kws = []
         for j, q in enumerate(qs):
-            # later calls pass different kwargs: the cached ball of the first call must keep being used
-            kwj = kw if j == 0 else ({} if rng.random() < 0.5 else {"max_diameter": rng.randint(1, 4)})
+            # later calls pass the same or different BFS arguments: the answer must be that of a fresh graph with the CURRENT arguments
+            r0 = rng.random()
+            kwj = kw if (j == 0 or r0 < 0.4) else ({} if r0 < 0.6 else {"max_diameter": rng.randint(1, 4)})
+            kws.append(kwj)
+            deff = eff_depth(kwj)
             r, lit = P.res_path_lit(lambda: cayleypy.find_path(graph, list(q), **kwj))
-            qlits.append(f"({czl(q)}, {lit})")
-            case = {"graph": gd, "config": cfgd, "kwargs": kw, "queries": qs[: j + 1], "finder": "find_path"}
+            qlits.append(f"({kwj.get('max_diameter') or 50}%N, {kwj.get('max_layer_size_to_explore') or 10**6}, {czl(q)}, {lit})")
+            case = {"graph": gd, "config": cfgd, "kwargs_per_call": kws[:], "queries": qs[: j + 1], "finder": "find_path"}
             d = dist_to_c.get(tuple(q))
             nontrivial = nontrivial or d is None or d >= 2
             ctx.count("fp_" + ("unreachable" if d is None else "within_2D" if d <= 2 * deff else "beyond_2D"))
             msg = check_fp(gd, dist_to_c, deff, q, r)
             if msg:
                 ctx.violation("property_fails", msg, case, True)
+            # history independence: the same call on a fresh object
+            fr, _ = P.res_path_lit(lambda: cayleypy.find_path(G.make_graph(gd, cfgd), list(q), **kwj))
+            if fr != r:
+                ctx.violation("property_fails", f"find_path answers {r} after earlier calls but {fr} on a fresh graph", case, True)
         ctx.case_seen({"graph": gd, "config": cfgd, "kwargs": kw, "queries": qs}, nontrivial)
         ctx.count("directed" if not ic else "undirected")
-        coq_cases.append(f"(Build_fp_case {G.coq_gdesc(gd, graph)} {P.inv_mats_lit(graph)} {graph.batch_size} {depth or 50}%N {explore or 10**6} {clist(qlits)})")
+        coq_cases.append(f"(Build_fp_case {G.coq_gdesc(gd, graph)} {P.inv_mats_lit(graph)} {graph.batch_size} {clist(qlits)})")
         metas.append({"graph": gd, "config": cfgd, "kwargs": kw, "queries": qs})
     ctx.sample(metas[0]); ctx.sample(metas[-1])
     bad = ctx.coq_failing("Base Bfs BfsRun GraphImpl Hash Tensor PathRun", "", "fp_case", coq_cases, "check_fp_case", "fp", shard=ctx.budget(8, 20))
@@ -105,7 +114,7 @@ def replay(ctx, obj):
     import cayleypy
     case = obj.get("case", {})
     if obj.get("kind") == "property_fails" and case.get("finder") == "find_path":
-        gd, cfgd, kw, qs = case["graph"], case["config"], case["kwargs"], case["queries"]
+        gd, cfgd, kws, qs = case["graph"], case["config"], case["kwargs_per_call"], case["queries"]
         graph = G.make_graph(gd, cfgd)
         ic = bool(graph.definition.generators_inverse_closed)
         if ic:
@@ -114,17 +123,20 @@ def replay(ctx, obj):
             rg = reverse_graph(gd) if gd["kind"] == "perm" else dict(gd, mats=[m.matrix.tolist() for m in graph.with_inverted_generators.definition.generators_matrices])
             layers, dist_to_c = G.ref_bfs(rg, [gd["central"]])
         sizes = [len(l) for l in layers]
-        deff = 0
-        for i in range(1, (kw.get("max_diameter") or 50) + 1):
-            if i >= len(sizes):
-                break
-            deff = i
-            if sizes[i] >= (kw.get("max_layer_size_to_explore") or 10**6):
-                break
         msg = None
-        for j, q in enumerate(qs):
-            r, _ = P.res_path_lit(lambda: cayleypy.find_path(graph, list(q), **(kw if j == 0 else {})))
+        for q, kw in zip(qs, kws):
+            deff = 0
+            for i in range(1, (kw.get("max_diameter") or 50) + 1):
+                if i >= len(sizes):
+                    break
+                deff = i
+                if sizes[i] >= (kw.get("max_layer_size_to_explore") or 10**6):
+                    break
+            r, _ = P.res_path_lit(lambda: cayleypy.find_path(graph, list(q), **kw))
             msg = check_fp(gd, dist_to_c, deff, q, r)
+            fr, _ = P.res_path_lit(lambda: cayleypy.find_path(G.make_graph(gd, cfgd), list(q), **kw))
+            if msg is None and fr != r:
+                msg = f"find_path answers {r} after earlier calls but {fr} on a fresh graph"
         return msg
     run(ctx)
     return "; ".join(v["what"] for v in ctx.violations[:3]) or None
